@@ -226,6 +226,10 @@ udp_pipe_close(void *arg)
 	udp_ep   *ep = p->ep;
 	nni_aio  *aio;
 
+	if (ep == NULL) {
+		// pipe creation failed before the endpoint adopted the pipe
+		return;
+	}
 	nni_mtx_lock(&ep->mtx);
 	udp_remove_pipe(p);
 	udp_send_disc(ep, p, DISC_CLOSED);
@@ -242,6 +246,10 @@ udp_pipe_stop(void *arg)
 	udp_pipe *p  = arg;
 	udp_ep   *ep = p->ep;
 
+	if (ep == NULL) {
+		// pipe creation failed before the endpoint adopted the pipe
+		return;
+	}
 	udp_pipe_close(arg);
 
 	nni_mtx_lock(&ep->mtx);
